@@ -1,26 +1,42 @@
 """./check configuration for C12 (see verif_props.py)."""
 
-PROP = {'technique': 'Lean models of the net/netip pieces with conversion, mask and comparator theorems (strict weak order, order under SORT-1), machine-checked counterexample for the mapped-IPv6 membership gap; differential tie',
+PROP = {'technique': 'Lean models of the net/netip pieces with conversion, mask and comparator theorems (strict weak order, stated order of the sorted slice), '
+              'machine-checked counterexample for the mapped-IPv6 membership gap; statement-level Lean model of slices.SortFunc (Go 1.24.2 '
+              'pdqsortCmpFunc with insertion sort, heapsort, partition, partitionEqual, partialInsertionSort, breakPatterns, choosePivot) with '
+              'totality and permutation for every comparator and sortedness for every strict weak order proved by loop invariants, so that '
+              'SORT-1 is a theorem; differential tie',
  'module': 'GolibsVerif.Theorems.C12',
+ 'modules': ['GolibsVerif.Theorems.C12', 'GolibsVerif.Theorems.C12Sort'],
  'namespace': 'GolibsVerif.C12',
  'rule': 'one case = one call of IPToAddr / IPToAddrNoMapped / IPNetToPrefix(+NoMapped) / NetAddrToAddrPort / PreferIPv4|6 / '
-         'slices.SortFunc, or one std.* comparison of a stdlib model; non-trivial = the conversion succeeds, or fails past the nil/length '
+         'slices.SortFunc, or one std.* comparison of a stdlib model (std.sortfunc: the real slices.SortFunc against the model of pdqsort on a '
+         'position-tagged slice of 0..2000 elements, under consistent and inconsistent comparators); non-trivial = the conversion succeeds, or fails past the nil/length '
          'gate (mapped check, mask shape, bit count), or a comparator/sort call on >= 2 addresses; std.* cases, nil and wrong-length '
          'inputs are labelled trivial-*; distinct = distinct case line',
  'trusted': ['Lean models of net.IP.To4/To16, IPMask.Size, IPNet.Contains, netip.AddrFromSlice, Addr.Is4In6/Unmap/WithZone/Compare, '
              'netip.PrefixFrom, Prefix.Contains, (*TCPAddr|*UDPAddr).AddrPort: compared with the real functions by the C12.std.* cases on '
              'every run (sampled, not proved)',
-             'SORT-1: slices.SortFunc returns a permutation of its input that is sorted w.r.t. cmp(a,b)<0 whenever that relation is a '
-             'strict weak order (hypothesis of sortFunc_order; prefer_strict_weak proves the premise; sampled by C12.sort cases)',
+             'SORT-1 (slices.SortFunc returns a permutation of its input that is sorted w.r.t. cmp(a,b)<0 whenever that relation is a '
+             'strict weak order) is no longer assumed: it is the theorem sort_contract_model about the model of slices.SortFunc in '
+             'Go/Sort.lean (sortFunc_total, sortFunc_perm for every comparator; sortFunc_sorted for strict weak orders); sortFunc_order keeps '
+             'the contract as a hypothesis, sortFunc_order_stdlib is its hypothesis-free corollary.  Trusted instead: the model is '
+             'hand-written, statement by statement, after $GOROOT/src/slices/zsortanyfunc.go and sort.go of go1.24.2 (Go int as unbounded Int: '
+             'no overflow for len < 2^62; checked index on every access; fuel only where a loop guard alone does not decrease a measure, '
+             'proved sufficient), and tied to the real slices.SortFunc by the C12.std.sortfunc cases on every run: tagged elements so that '
+             'the exact permutation is compared, lengths 0..2000, sorted / reversed / all-equal / organ-pipe / sawtooth / few-distinct / '
+             'nearly-sorted / random inputs, comparators num, rev, mod3, zero (strict weak orders), rps, neg, one, tagx (inconsistent) and '
+             'PreferIPv4/6 (sampled, not proved); C12.sort runs the same model',
              'netip.Addr is modelled as zero | v4 bytes | v6 bytes zone; its uint128 value is the big-endian number of the bytes'],
  'level_text': 'Lean theorems for all net.IP / IPMask / net.Addr / netip.Addr inputs about an executable model of addrconv.go and sort.go '
                'over Lean models of the stdlib functions they call; model and stdlib models are tied to the Go code by running both on the '
                'same generated cases on every check',
  'level_note': 'full strength: ipToAddr_spec, noMapped_unmaps, netAddr_preserves, bad_mask_rejected, prefer_key, prefer_strict_weak, '
-               'sortFunc_order (under SORT-1), prefix_membership_v4, prefix_membership_noMapped.  prefix_membership_partial carries one '
+               'sortFunc_order (for any sort meeting SORT-1), sort_contract_model (SORT-1 for the model of Go 1.24.2 pdqsort: sortFunc_total and '
+               'sortFunc_perm for every comparator, sortFunc_sorted for every strict weak order), sortFunc_order_stdlib (hypothesis-free), '
+               'prefix_membership_v4, prefix_membership_noMapped.  prefix_membership_partial carries one '
                'extra hypothesis that is necessary (the converted address is not IPv4-mapped, or the prefix has >= 96 bits): '
                'prefix_membership_mapped_gap is the machine-checked counterexample, which the real code reproduces (KNOWN_FINDINGS '
                'C12-mapped6).  Model is of the repaired IPNetToPrefix (fix-1: bits==0 rejected)',
- 'assumptions': ['SORT-1 (slices.SortFunc contract) for the ordering claim',
+ 'assumptions': ['the ordering claim is about the model of slices.SortFunc of go1.24.2 (SORT-1 proved for it; another Go release may ship another algorithm)',
                  'byte values < 256 (carried as hypotheses where used)',
                  "TCPAddr/UDPAddr ports outside 0..65535 are truncated to uint16 by the stdlib; 'same port' is claimed for 0..65535"]}
